@@ -41,7 +41,7 @@ def scenario(ctx, i):
     if kind == "zero_in_all" and C > 1 and r.random() < 0.6:
         sigma[0] = floor * r.uniform(0.05, 0.9, D)  # a never-observed component that starts below the floor (fit() starts from the unfloored UBM variances)
     parts = gen.random_composition(r, ns)
-    return dict(kind=kind, C=C, D=D, R=R, w=w, m=m, v=v, T=T, sigma=sigma, sts=sts, parts=parts, update_sigma=True if kind == "floor" else bool((i // 4 + i) % 2 == 0),
+    return dict(route=["fresh", "fresh", "reused", "reused_sigma", "reused_T"][int(r.integers(0, 5))], kind=kind, C=C, D=D, R=R, w=w, m=m, v=v, T=T, sigma=sigma, sts=sts, parts=parts, update_sigma=True if kind == "floor" else bool((i // 4 + i) % 2 == 0),
                 floor=floor, iters=int(r.integers(1, 4)), seed=int(r.integers(0, 10**6)))
 
 
@@ -55,6 +55,29 @@ def mk_machine(sc, iters=1):
     ubm = gen.mk_gmm(sc["w"], sc["m"], sc["v"])
     iv = IVectorMachine(ubm, dim_t=sc["R"], max_iterations=iters, update_sigma=sc["update_sigma"], variance_floor=sc["floor"])
     iv.dim_c, iv.dim_d = sc["C"], sc["D"]
+    route = sc.get("route", "fresh")
+    if route != "fresh":
+        # the machine is used with other parameters first (project, possibly one E/M step), then re-parameterised by
+        # assignment — all of T and sigma, or only one of them (the other keeps its array object): the property is about
+        # the machine's current T and sigma
+        from bob.learn.em import ivector as ivmod
+
+        rr = np.random.default_rng(4321)
+        T0 = np.array(sc["T"], dtype=float)
+        S0 = np.array(sc["sigma"], dtype=float)
+        iv.T = T0 + rr.normal(size=T0.shape) if route in ("reused", "reused_T") else T0
+        iv.sigma = S0 * rr.uniform(0.5, 2.0, size=S0.shape) if route in ("reused", "reused_sigma") else S0
+        st = gen.mk_stats(sc["C"], sc["D"], rr.uniform(0.5, 4, sc["C"]), rr.normal(size=(sc["C"], sc["D"])), rr.uniform(1, 9, (sc["C"], sc["D"])), 9)
+        core.impl(lambda: iv.project(st))
+        if route == "reused":
+            core.impl(lambda: ivmod.m_step(iv, ivmod.e_step(iv, [st, st])))
+            core.impl(lambda: iv.project(st))
+        if route == "reused_sigma":
+            iv.sigma = S0
+            return iv
+        if route == "reused_T":
+            iv.T = T0
+            return iv
     iv.T = np.array(sc["T"], dtype=float)
     iv.sigma = np.array(sc["sigma"], dtype=float)
     return iv
@@ -86,7 +109,7 @@ def correspondence(ctx):
         ctx.count("update_sigma" if sc["update_sigma"] else "fixed_sigma")
         ctx.case([core.tolist(sc["T"]), core.tolist([s["f"] for s in sc["sts"]]), sc["update_sigma"], sc["floor"]], nontrivial=len(sc["sts"]) >= 2 and C * D >= 2,
                  sample={"kind": sc["kind"], "C": C, "D": D, "R": R, "statistics": len(sc["sts"]), "partitions": sc["parts"], "update_sigma": sc["update_sigma"]})
-        inp = {k: sc[k] for k in ("kind", "C", "D", "R", "w", "m", "v", "T", "sigma", "sts", "parts", "update_sigma", "floor", "iters", "seed")}
+        inp = {k: sc[k] for k in ("kind", "route", "C", "D", "R", "w", "m", "v", "T", "sigma", "sts", "parts", "update_sigma", "floor", "iters", "seed")}
         iv = mk_machine(sc)
         sts = [mk_stats(sc, s) for s in sc["sts"]]
         pr = core.impl(lambda: np.array([iv.project(s) for s in sts], dtype=float))
@@ -193,7 +216,7 @@ def validity_oracle(ctx, i):
     sc["update_sigma"] = True
     f = oracle(sc, 3)
     if f and f["sig"] in ("non-finite-ivector-parameters", "sigma-below-floor", "ivector-step-raises"):
-        f["input"] = {**{k: sc[k] for k in ("kind", "C", "D", "R", "w", "m", "v", "T", "sigma", "sts", "parts", "update_sigma", "floor", "iters", "seed")}, "trainer": "ivector"}
+        f["input"] = {**{k: sc[k] for k in ("kind", "route", "C", "D", "R", "w", "m", "v", "T", "sigma", "sts", "parts", "update_sigma", "floor", "iters", "seed")}, "trainer": "ivector"}
         return f
     return None
 
@@ -218,7 +241,7 @@ def search(ctx):
         f = oracle(sc, 3 if ctx.tier == "quick" else 6)
         if f and f["sig"] not in seen:
             seen.add(f["sig"])
-            f["input"] = {k: sc[k] for k in ("kind", "C", "D", "R", "w", "m", "v", "T", "sigma", "sts", "parts", "update_sigma", "floor", "iters", "seed")}
+            f["input"] = {k: sc[k] for k in ("kind", "route", "C", "D", "R", "w", "m", "v", "T", "sigma", "sts", "parts", "update_sigma", "floor", "iters", "seed")}
             fails.append(f)
     return fails
 
